@@ -26,6 +26,11 @@ def programs(tick, unit, kind):
         ('liquidate-at-3', dict(b, side='long', enter={'when': {'at': [0, 4]}, 'legs': [[2, 0]]}, on_open={'sl': 'all', 'tp': 'all', 'sl_d': 4, 'tp_d': 4},
                                 update=[{'at': 3, 'liquidate': True}], cancel_entry=True)),
     ]
+    # open -> partial exit -> scale back in at another price (market order from inside the fill handler) -> exit of the whole
+    P.append(('tp1-reenter', dict(b, side='long', enter={'when': 'flat', 'legs': [[2, 0]]},
+                                  on_open={'sl': [[2, 3]], 'tp': [[1, 1], [1, 3]]} if kind == 'futures' else {'tp': [[1, 1], [1, 3]]},
+                                  on_reduced={'reenter': [[2, 0]]},
+                                  on_increased={'sl': 'all', 'tp': 'all', 'sl_d': 3, 'tp_d': 2} if kind == 'futures' else {'tp': 'all', 'tp_d': 2}, cancel_entry=True)))
     if kind == 'spot':
         P = [x for x in P if x[0] != 'liquidate-at-3']     # spot: liquidate() at a loss next to a resting take-profit is rejected by the exchange model (see DESIGN 6)
     if kind == 'futures':
@@ -34,6 +39,10 @@ def programs(tick, unit, kind):
             ('short-partial-tp-fullsize-stop', dict(b, side='short', enter={'when': 'flat', 'legs': [[2, 0]]}, on_open={'sl': [[2, 2]], 'tp': [[1, 1], [1, 3]]}, cancel_entry=True)),
             ('short-2leg', dict(b, side='short', enter={'when': 'flat', 'legs': [[1, 1], [1, 2]]}, on_open={'sl': 'all', 'tp': 'all', 'sl_d': 2, 'tp_d': 2},
                                 on_increased={'sl': 'all', 'tp': 'all', 'sl_d': 2, 'tp_d': 2}, cancel_entry={'after': 2})),
+            ('short-tp1-reenter', dict(b, side='short', enter={'when': 'flat', 'legs': [[2, 0]]}, on_open={'sl': [[2, 3]], 'tp': [[1, 1], [1, 3]]},
+                                       on_reduced={'reenter': [[2, 0]]}, on_increased={'sl': 'all', 'tp': 'all', 'sl_d': 3, 'tp_d': 2}, cancel_entry=True)),
+            ('tp1-liquidate-in-handler', dict(b, side='long', enter={'when': 'flat', 'legs': [[2, 0]]}, on_open={'sl': [[2, 2]], 'tp': [[1, 1], [1, 3]]},
+                                              on_reduced={'liquidate': True}, cancel_entry=True)),
             ('flip-at-2', dict(b, side='long', enter={'when': {'at': [0]}, 'legs': [[1, 0]]}, on_open={'sl': 'all', 'tp': 'all', 'sl_d': 6, 'tp_d': 6},
                                update=[{'at': 2, 'flip': 2}], cancel_entry=True)),
         ]
